@@ -257,6 +257,21 @@ def _append_pattern(st):
     return None
 
 
+def _mutated_elsewhere(env, lname, loop):
+    """does the enclosing function call a mutating list method on the local `lname` outside `loop`?"""
+    fnode = getattr(getattr(env, 'func', None), 'node', None)
+    if fnode is None:
+        return False
+    inside = {id(n) for n in ast.walk(loop)}
+    for n in ast.walk(fnode):
+        if id(n) in inside:
+            continue
+        if (isinstance(n, ast.Call) and isinstance(n.func, ast.Attribute) and isinstance(n.func.value, ast.Name) and n.func.value.id == lname
+                and n.func.attr in ('append', 'extend', 'insert', 'pop', 'remove', 'sort', 'reverse', 'clear')):
+            return True
+    return False
+
+
 def for_over_seq(I, st, pipe, env):
     from .interp import Env, zbool, simp, _and
     from .seq import SSeq
@@ -270,7 +285,12 @@ def for_over_seq(I, st, pipe, env):
             # L == [] before the loop: after it L is the comprehension [elt for x in S if conds]
             comp = ast.ListComp(elt=elt, generators=[ast.comprehension(target=st.target, iter=st.iter, ifs=list(conds), is_async=0)])
             cenv = Env(env.module, env.cls, env.func, env)
-            env.vars[lname] = seq_comprehension(I, comp, pipe, cenv)
+            built = seq_comprehension(I, comp, pipe, cenv)
+            if isinstance(built, SSeq) and _mutated_elsewhere(env, lname, st):
+                # the list goes on being filled after the loop: a mutable list whose first part is the comprehension
+                from .values import XList
+                built = XList(built, [], False)
+            env.vars[lname] = built
             return
     if _search_pattern(st) is not None:
         return search_loop(I, st, pipe, env)
@@ -281,6 +301,9 @@ def _search_pattern(st):
     """for x in S: if cond(x): return <value not depending on x>"""
     if len(st.body) == 1 and isinstance(st.body[0], ast.If) and not st.body[0].orelse:
         inner = st.body[0].body
+        if len(inner) == 1 and isinstance(inner[0], ast.Raise):
+            # for x in S: if cond(x): raise E(...x...)      (a validation loop)
+            return st.body[0].test, inner[0]
         if len(inner) == 1 and isinstance(inner[0], ast.Return):
             tnames = {n.id for n in ast.walk(st.target) if isinstance(n, ast.Name)}
             val = inner[0].value
@@ -303,6 +326,13 @@ def search_loop(I, st, pipe, env):
         return I.truth(I.ev(test, e))
     hits = pipe.with_stage('filter', _pointwise(I, cond))
     if I.branch(I.pipes.observable(hits, 'ne')):
+        if isinstance(val, ast.Raise):
+            # some element satisfies the condition: the statement is executed for a witness (an arbitrary such element)
+            pred, keys, w = hits.eval_at('w')
+            I.assume(pred)
+            I.assign(st.target, w, env)
+            I.exec_stmt(val, env)
+            raise Unsupported('raise statement in a validation loop returned')
         raise _Return(I.ev(val, env) if val is not None else None)
 
 
